@@ -157,6 +157,19 @@ def w_geometry(cfg, tier):
         ps = eng.explore(fn)
     col.absorb(eng)
     ev = [c.t for c in edge]
+    # translation validation: the symbolic run instantiated at every concrete edge and the all-zero state must
+    # be what the real flip_edge of a fresh decoder on a fresh, unshadowed code does
+    fcode = common.make_code(cfg.split(' ')[1])
+    from panqec.error_models import PauliErrorModel as _PEM
+    fdec = Dec(fcode, _PEM(1 / 3, 1 / 3, 1 / 3), 0.1)
+
+    def real_flip(loc):
+        st = np.zeros(m, dtype=np.uint8)
+        fdec.flip_edge(loc, st)
+        return [bool(x) for x in st]
+    lt.validate_paths_at(col, cfg, ps, ev, qc, real_flip,
+                         lambda v, sub: [bool(lt.concretise(bool_term(c), sub)) for c in v],
+                         extra_sub=[(b, z3.BoolVal(False)) for b in S])
     # specification: row i toggles iff stabilizer i has an X on the edge qubit (anticommutes with Z there)
     spec = []
     for i in range(m):
